@@ -367,7 +367,7 @@ def run_c15(tier: str, seed: int) -> int:
             seen.add(tx)
             rep.case(tx[:300])
             uniq.append(tx)
-        events = C.guarded_events(rep, parse_event, uniq, "LDAPFilter.from_string()")
+        events = C.guarded_events(rep, parse_event, uniq, "LDAPFilter.from_string()", also_prop="C15")
         validate(rep, wd, events, sigmap, "from_string(any text): total, error span inside the input, accepted names valid, result re-parses to itself")
         for e in events[:3]:
             rep.sample({"text": bytes(e["text"]).decode("utf-8", "replace"), "res": e["res"], "off": e["off"], "len": e["len"]})
